@@ -19,3 +19,4 @@ def rules(ctx):
     S.c06_r5_tracking(ctx)
     S.c02_r4_who_frees(ctx)
     S.tracker_state_rules(ctx)
+    S.loop_completeness_rules(ctx)
